@@ -22,7 +22,9 @@ RULE = (
     "register / stack slot SP+shadow+slot*(i-nregs), exact integer values, "
     "symbol arguments as addresses, SP aligned, and at the end SP restored "
     "(after the callee's own cleanup when callee-cleanup), argument "
-    "callables invoked with the insertion context. non-trivial = call "
+    "callables invoked with the insertion context - also when the same "
+    "patch object is used at a second site, where the text must equal that "
+    "of a patch built from that site's values. non-trivial = call "
     "reached in the interpreter; distinct = (abi, mode, #args, #stack args, "
     "kinds, convention)."
 )
